@@ -37,6 +37,80 @@ def keys_read(fn: ast.AST, param: str) -> Set[str]:
     return out
 
 
+KEY_PARAMS = {"Dimension": ["exponents"], "Prefix": ["base", "exponent"], "Unit": ["prefix", "factors", "dimension"],
+              "Logarithm": ["base", "prefix"], "LogarithmicUnit": ["logarithm", "reference"]}
+
+
+def newargs_cover_key(rep: Report, prog: Program, rid: str, classes: Tuple[str, ...], required: bool) -> None:
+    """__getnewargs_ex__ hands copy/pickle the arguments for __new__: position by position they must be
+    the attributes __new__ interns under.  A hook that leaves one out makes the copy fetch *another*
+    interned object - and then writes the pickled state over it."""
+    for cls in classes:
+        ci = prog.cls(cls)
+        if "__getnewargs_ex__" not in ci.methods and "__getnewargs__" not in ci.methods:
+            if required:
+                rep.fail(rid, f"{cls}.__getnewargs_ex__", f"{cls} defines no __getnewargs_ex__", f"{ci.path}:{ci.node.lineno}")
+            else:
+                rep.ok(rid, f"{cls}.__getnewargs_ex__", note="no pickle hook (copy/pickle of this class is not supported: TypeError)")
+            continue
+        new = prog.func(f"{cls}.__new__")
+        gna = prog.functions[ci.methods.get("__getnewargs_ex__") or ci.methods["__getnewargs__"]]
+        params = [p_ for p_ in new.params() if p_ != "cls"]
+        rets = [r for r in ast.walk(gna.node) if isinstance(r, ast.Return) and r.value is not None]
+        if len(rets) != 1:
+            raise AnalysisError(f"{cls}.__getnewargs_ex__: expected one return")
+        local: Dict[str, ast.AST] = {}
+        for n in ast.walk(gna.node):
+            if isinstance(n, ast.Assign) and len(n.targets) == 1 and isinstance(n.targets[0], ast.Name):
+                local[n.targets[0].id] = n.value
+            elif isinstance(n, ast.AnnAssign) and isinstance(n.target, ast.Name) and n.value is not None:
+                local[n.target.id] = n.value
+
+        def deref(e: ast.AST) -> ast.AST:
+            seen = 0
+            while isinstance(e, ast.Name) and e.id in local and seen < 5:
+                e = local[e.id]
+                seen += 1
+            return e
+        rv = deref(rets[0].value)
+        if gna.name == "__getnewargs__":
+            args: ast.AST = rv
+            kwargs: ast.AST = ast.Dict(keys=[], values=[])
+        else:
+            if not (isinstance(rv, ast.Tuple) and len(rv.elts) == 2):
+                rep.fail(rid, f"{cls}.__getnewargs_ex__", "does not return (args, kwargs)", gna.where())
+                continue
+            args, kwargs = deref(rv.elts[0]), deref(rv.elts[1])
+        key_params = KEY_PARAMS[cls]
+        given: Dict[str, ast.AST] = {}
+        if isinstance(args, ast.Tuple):
+            for i, a in enumerate(args.elts):
+                if i < len(params):
+                    given[params[i]] = deref(a)
+        if isinstance(kwargs, ast.Dict):
+            for k, v in zip(kwargs.keys, kwargs.values):
+                if isinstance(k, ast.Constant) and isinstance(k.value, str):
+                    given[k.value] = deref(v)
+        ok, why = True, ""
+        for kp in key_params:
+            e = given.get(kp)
+            if e is None:
+                ok, why = False, f"the key parameter `{kp}` of {cls}.__new__ is not passed (it falls back to its default, another interned object)"
+                break
+            names = {n.attr for n in ast.walk(e) if isinstance(n, ast.Attribute) and isinstance(n.value, ast.Name) and n.value.id == gna.params()[0]}
+            if kp not in names:
+                ok, why = False, f"`{kp}` is passed `{ast.unparse(e)[:40]}`, not self.{kp}"
+                break
+        rep.check(rid, f"{cls}.__getnewargs_ex__", ok, f"{cls}.__getnewargs_ex__: {why or 'wrong shape'}: copy/pickle would fetch (and then overwrite) the "
+                  "object interned under another key", gna.where())
+        if cls == "Unit":
+            kd = kwargs if isinstance(kwargs, ast.Dict) else None
+            has_name = kd is not None and any(isinstance(k, ast.Constant) and k.value == "name" and "self.name" in ast.unparse(deref(v))
+                                              for k, v in zip(kd.keys, kd.values))
+            rep.check(rid, "Unit.__getnewargs_ex__:name", has_name, "a base unit pickles with empty factors and must pass its name, "
+                      "which is what __new__ falls back to", gna.where())
+
+
 def structural_decoding(rep: Report, prog: Program, rid: str) -> None:
     """The decoders of the interned structural classes rebuild the object from the structural
     key that was written (Dimension: exponents; Prefix: base and exponent) on every path.  A
@@ -81,6 +155,23 @@ def structural_decoding(rep: Report, prog: Program, rid: str) -> None:
                       fi.where(r))
 
 
+def codec_hooks(rep: Report, prog: Program) -> None:
+    """R15.11: json has three places a decoder can come from - `json._default_decoder` (used by json.load(fp), which
+    passes object_hook=None explicitly), the `object_hook` default of json.loads, and an explicit cls= - and one
+    for the encoder.  codecs_installed must set each of the implicit ones and put each back."""
+    fi = prog.func("json.codecs_installed")
+    hooks = ("json._default_encoder", "json._default_decoder", "json.loads.__kwdefaults__['object_hook']")
+    fin = [t for t in ast.walk(fi.node) if isinstance(t, ast.Try) and t.finalbody]
+    for h in hooks:
+        stores = [n for n in ast.walk(fi.node) if isinstance(n, ast.Assign) and any(ast.unparse(t).replace('"', "'") == h for t in n.targets)]
+        restored = any(n in list(ast.walk(ast.Module(body=t.finalbody, type_ignores=[]))) for t in fin for n in stores)
+        installed = [n for n in stores if not any(n in list(ast.walk(ast.Module(body=t.finalbody, type_ignores=[]))) for t in fin)]
+        rep.check("R15.11", f"codecs_installed:{h}", bool(installed) and restored,
+                  f"codecs_installed {'does not set' if not installed else 'does not restore'} {h}: " +
+                  ("json.load(fp) and json.loads(text, object_hook=None) go through json._default_decoder and would return plain dicts"
+                   if "decoder" in h else "values handed to the standard json functions are not encoded/decoded on that route"), fi.where())
+
+
 def run(rep: Report) -> None:
     prog = Program()
     resolver = Resolver(prog)
@@ -95,6 +186,7 @@ def run(rep: Report) -> None:
     rep.rule("R15.5", "Unit.__from_json__: base units resolve by name (every base unit is named); derived units rebuild "
              "through the interning constructor", floor=3)
     rep.rule("R03.7", "Quantity.__init__ (the reader of the stored unit text) keeps magnitude and unit as given (shared with C03)", floor=2)
+    rep.rule("R15.11", "codecs_installed sets and restores each implicit json hook: default encoder, default decoder, loads' object_hook default", floor=3)
     rep.rule("R15.10", "no memoised function on the decoding side reads the name/symbol registries (the unit text of a stored quantity must "
              "be resolved against the registrations of now, not of the first time it was seen)", floor=1)
     rep.rule("R15.9", "no encoder/decoder is memoised over values whose equality ignores the magnitude type (5 m, 5.0 m, Decimal('5') m)", floor=1)
@@ -104,7 +196,9 @@ def run(rep: Report) -> None:
     rep.rule("R15.6", "pickle/copy of a Quantity carry the Unit object itself (no custom reduce/copy hook routes it through text)", floor=1)
 
     # R15.1
-    for cls in ("Dimension", "Prefix", "Unit"):
+    newargs_cover_key(rep, prog, "R15.1", ("Dimension", "Prefix", "Unit"), required=True)
+    newargs_cover_key(rep, prog, "R15.1", ("Logarithm", "LogarithmicUnit"), required=False)
+    for cls in ():
         new = prog.func(f"{cls}.__new__")
         gna = prog.func(f"{cls}.__getnewargs_ex__")
         params = [p for p in new.params() if p != "cls"]
@@ -294,6 +388,7 @@ def run(rep: Report) -> None:
     symbol_table(rep, ev, symbol_regex(_norm(_sh.data, _sh.memo)), rep.tier == "thorough", rid1="R15.8", rid2="R15.8",
                  consequence="a quantity in that unit comes back from JSON / the SQL composite as a quantity of another unit")
     structural_decoding(rep, prog, "R15.7")
+    codec_hooks(rep, prog)
     from ..quantity_rules import check_quantity_ctor
     check_quantity_ctor(rep, prog, "R03.7")
     from ..quantity_rules import check_numeric_memo
